@@ -3,7 +3,7 @@
 # 1. copies patch/demo/meta to /verif/seeded/<ID>/  2. fresh worktree: demo passes without / fails with the patch
 # 3. runs the given checks (default: the property's own check) against the patched worktree via VERIF_REPO
 id=$1; shift; checks=${@:-$id}
-src=/tmp/agent_wt/$id/seeded; dst=/verif/seeded/$id; wt=/tmp/seed_eval_$id
+src=${SRC:-/tmp/agent_wt}/$id/seeded; dst=/verif/seeded/$id${SUFFIX:-}; wt=/tmp/seed_eval_$id
 [ -f $src/patch.diff ] || { echo "no patch for $id"; exit 1; }
 mkdir -p $dst; cp $src/patch.diff $src/demo.py $src/meta.json $dst/ 2>/dev/null
 git -C /repo worktree remove --force $wt 2>/dev/null; git -C /repo worktree add --detach -f $wt HEAD -q
